@@ -29,6 +29,8 @@ pub struct SysCfg {
     pub array_inputs: bool,
     /// states that have an init but no next, and states with neither
     pub nextless_states: bool,
+    /// one state in this many has no next function (when `nextless_states` is set)
+    pub nextless_one_in: u64,
     /// appended to every generated name (e.g. `_state`, `_input_1`: words the btor2 front end uses for
     /// the names it invents itself, here at the end of ordinary names)
     pub name_suffix: String,
@@ -57,6 +59,7 @@ impl Default for SysCfg {
             array_states: true,
             array_inputs: false,
             nextless_states: false,
+            nextless_one_in: 6,
             name_suffix: String::new(),
             array_eq: true,
             array_const_only_in_init: false,
@@ -198,7 +201,7 @@ pub fn gen_system(rng: &mut Rng, ctx: &mut Context, cfg: &SysCfg, prefix: &str) 
     let mut nexts: Vec<Option<ExprRef>> = vec![];
     for &s in state_syms.iter() {
         let d = g.rng.range(1, cfg.max_depth as u64) as u32;
-        if cfg.nextless_states && g.rng.chance(1, 6) {
+        if cfg.nextless_states && g.rng.chance(1, cfg.nextless_one_in) {
             nexts.push(None);
             continue;
         }
